@@ -169,6 +169,7 @@ type Sys struct {
 
 	badSnap     map[int64]bool // live snapshots not taken because the live tree was already wrong
 	minRequired int64          // versions >= minRequired must stay loadable (raised by prunes)
+	raceBound   int64          // largest bound beyond the latest version given to a deletion that was not waited for
 }
 
 func newSys(cfg Config, out *traceOut, stats map[string]int) (*Sys, error) {
